@@ -48,3 +48,21 @@ pub fn hash<T: Hash + 'static>(value: &T) -> u64 {
     value.hash(&mut s);
     s.finish()
 }
+
+/// Combines the hash of a memoized function's signature with the location of its definition,
+/// so that functions with textually identical signatures in different modules (or scopes)
+/// do not share a [`Key`](crate::Key).
+pub const fn memo_fn_key(signature_hash: u64, module_path: &str, line: u32, column: u32) -> u64 {
+    // FNV-1a
+    const PRIME: u64 = 0x0000_0100_0000_01b3;
+    let mut key = signature_hash ^ 0xcbf2_9ce4_8422_2325;
+    let bytes = module_path.as_bytes();
+    let mut i = 0;
+    while i < bytes.len() {
+        key = (key ^ bytes[i] as u64).wrapping_mul(PRIME);
+        i += 1;
+    }
+    key = (key ^ line as u64).wrapping_mul(PRIME);
+    key = (key ^ column as u64).wrapping_mul(PRIME);
+    key
+}
